@@ -2,8 +2,8 @@ package rules
 
 import (
 	"bufio"
+	"bytes"
 	"fmt"
-	"os"
 	"path/filepath"
 	"regexp"
 	"sort"
@@ -29,15 +29,14 @@ type asmFunc struct {
 
 var memRe = regexp.MustCompile(`^(-?\d+)?\(([A-Z0-9]+)\)$`)
 
-func parseAsm(path string) ([]*asmFunc, error) {
-	fh, err := os.Open(path)
+func parseAsm(w *load.World, path string) ([]*asmFunc, error) {
+	data, err := w.ReadFile(path)
 	if err != nil {
 		return nil, err
 	}
-	defer fh.Close()
 	var fns []*asmFunc
 	var cur *asmFunc
-	sc := bufio.NewScanner(fh)
+	sc := bufio.NewScanner(bytes.NewReader(data))
 	n := 0
 	for sc.Scan() {
 		n++
@@ -109,7 +108,7 @@ func Asm(w *load.World, c *core.Collector) {
 	sort.Strings(files)
 	nf := 0
 	for _, path := range files {
-		fns, err := parseAsm(path)
+		fns, err := parseAsm(w, path)
 		if err != nil {
 			c.Add("ASM", "parse:"+filepath.Base(path), core.Undecided, "", err.Error(), props...)
 			continue
